@@ -447,6 +447,8 @@ func (fx *fnExec) execBuiltin(dst *ssa.Call, b *ssa.Builtin, c *ssa.CallCommon, 
 		fx.builtinCopy(dst, c, args, where)
 	case "delete":
 		fx.mapDelete(fx.sc(args[0], SInt), c.Args[0].Type(), args[1])
+		// `on call builtin.delete` (arg0 the map, arg1 the key): contracts about WHEN entries are removed
+		fx.runCallHooks("builtin.delete", args, nil, fx.curEnv(), where)
 	case "min", "max":
 		r := args[0]
 		for _, a := range args[1:] {
